@@ -558,8 +558,8 @@ h_crle_decode(void)
     compinfo_t *info = mk_info();
     H4V_ND(int32, disk_n);
     H4V_ND(int32, disk_pos);
-    H4V_ASSUME(disk_n >= 0 && disk_pos >= 0 && disk_pos <= disk_n);
-    H4V_ND_BUF(uint8, disk, disk_n, 12);
+    H4V_ASSUME(disk_n >= 0 && disk_pos >= 0 && disk_pos <= disk_n && disk_n <= 64);
+    uint8 disk[64];
     g_disk     = disk;
     g_disk_cap = g_disk_n = disk_n;
     g_dp       = disk_pos;
@@ -568,8 +568,7 @@ h_crle_decode(void)
 #ifdef H4V_CEX
     H4V_ASSUME(length <= 12);
 #endif
-    uint8 *out = malloc((size_t)length + (length == 0));
-    H4V_ASSUME(out != NULL);
+    uint8 out[256]; H4V_ASSUME(length <= 256);
     int   st0 = RF(info, rle_state);
     int32 r   = HCIcrle_decode(info, length, out);
     H4V_COVER(r == SUCCEED && RF(info, rle_state) == RLE_RUN, "decode ends inside a run");
